@@ -212,6 +212,20 @@ def make_check(cmd, table):
                 pass
             expect(len(c.datain) == n_in and len(c.dataout) == n_out, "mismatch:decoding_changed_a_buffer_length",
                    datain=[n_in, len(c.datain)], dataout=[n_out, len(c.dataout)])
+            # the binding may report a residual (short transfer): that must not alter the buffers either
+            from pbt.standins import sgio as sgio_mod
+
+            sgio_mod.residual = max(0, n_in - 7) if n_in else 0
+            try:
+                mark = transports.log_mark()
+                with lib("execute over sgio with residual"):
+                    _DEV["sgio"].execute(c)
+                    _DEV["sgio"].execute(c)
+                e = [x for x in transports.log_since(mark) if x[0] == "sgio.execute"]
+                expect(len(e) == 2 and all(x[6] is not None and holds(din_rule, x[6]) for x in e),
+                       "mismatch:datain_length_after_residual", got=[x[6] for x in e], rule=din_rule)
+            finally:
+                sgio_mod.residual = 0
             mark = transports.log_mark()
             with lib("re-execute over iscsi"):
                 _DEV["iscsi"].execute(c)
